@@ -210,6 +210,18 @@ def run(tier: str, seed: int) -> int:
                        'API calls replayed until all feasible pairs of 26 optional-block features were seen; seeded random '
                        'documents (up to ~190 calls, displacements of power 1-4 fully populated, Unicode/escape-heavy strings); '
                        'every .vmf under tests/ with preserve_ids on and off, minimal on and off')
+        # the text form of outputs on its own (both separators, instance forms, combine)
+        from props import sub_output
+        so = sub_output.collect(tier, seed, work)
+        cov['states'] += so['cov']['states']
+        cov['transitions'] += so['cov']['transitions']
+        cov['models'].update(so['cov']['models'])
+        for k in ('output_jobs', 'output_representable', 'output_records'):
+            cov[k] = so['cov'][k]
+        cov['traces_validated_against_impl'] += so['records']
+        cov['samples'] = cov['samples'] + so['samples'][:1]
+        sigs = sigs + so['sigs']
+        cov['mismatches'] = len(sigs)
         known, new = core.classify(PROP, sigs)
         return core.finish(PROP, tier=tier, seed=seed, t0=t0, coverage=cov, known=known, new=new,
                            assumptions=['pure-Python srctools from /repo/src (Cython accelerators cannot be built here)',
